@@ -9,6 +9,8 @@ Read with ast (never imported).  Extracted:
   trypsin_exception_literal          the exception name passed for --enzyme trypsin
   site_index_shift                   0 if fixed_indices += <find_all_enzymatic_cleave_sites call>
                                      1 if fixed_indices += [i - 1 for i in <that call>]
+  sort_key_variant                   key of self.target_db.sort(key=lambda x: ...) in main:
+                                     0 = x.seq   1 = (x.seq, x.description)   99 = anything else
 Fail-closed: anything not understood becomes the marker value (a list holding the string "?" / the
 number 99), which makes the obligation cli_options_modelled in Props/C20.v fail.
 """
@@ -79,6 +81,29 @@ def fixed_shift(func):
             exc = node.value.body.value
     return shift, exc
 
+def sort_key(func):
+    """the key of the target sort in main (exactly one `self.target_db.sort(key=lambda x: ...)`)"""
+    if func is None:
+        return 99, '?'
+    calls = [n for n in ast.walk(func) if isinstance(n, ast.Call) and isinstance(n.func, ast.Attribute)
+             and n.func.attr == 'sort' and ast.unparse(n.func.value) == 'self.target_db']
+    sorts = [n for n in ast.walk(func) if isinstance(n, ast.Call) and
+             ((isinstance(n.func, ast.Attribute) and n.func.attr == 'sort') or
+              (isinstance(n.func, ast.Name) and n.func.id == 'sorted'))]
+    if len(calls) != 1 or len(sorts) != 1 or calls[0].args or len(calls[0].keywords) != 1 \
+            or calls[0].keywords[0].arg != 'key' or not isinstance(calls[0].keywords[0].value, ast.Lambda):
+        return 99, '?'
+    lam = calls[0].keywords[0].value
+    if len(lam.args.args) != 1:
+        return 99, '?'
+    v = lam.args.args[0].arg
+    body = ast.unparse(lam.body)
+    if body == '%s.seq' % v:
+        return 0, body
+    if body == '(%s.seq, %s.description)' % (v, v):
+        return 1, body
+    return 99, body
+
 def run(repo, gendir):
     path = os.path.join(repo, 'moPepGen/cli/decoy_fasta.py')
     try:
@@ -91,6 +116,7 @@ def run(repo, gendir):
     hm = compared_literals(gen, 'method') if gen else MARK
     ho = compared_literals(it, 'order') if it else MARK
     shift, exc = fixed_shift(find_func(tree, 'find_fixed_indices'))
+    skey, skey_src = sort_key(find_func(tree, 'main'))
     def strs(x):
         return list(x) if isinstance(x, (list, tuple)) and all(isinstance(y, str) for y in x) and x else MARK
     L = ['(* GENERATED by harness/translate/decoy_cli.py from moPepGen/cli/decoy_fasta.py -- do not edit *)',
@@ -101,7 +127,8 @@ def run(repo, gendir):
          'Definition handled_orders : list (list Z) := %s.   (* %s *)' % (SS(strs(ho)), strs(ho)),
          'Definition default_max_attempts : Z := %d.' % (att if isinstance(att, int) else -99),
          'Definition trypsin_exception_literal : list Z := %s.   (* %s *)' % (S(exc), exc),
-         'Definition site_index_shift : Z := %d.' % shift]
+         'Definition site_index_shift : Z := %d.' % shift,
+         'Definition sort_key_variant : Z := %d.   (* %s *)' % (skey, skey_src.replace('*)', '* )'))]
     text = '\n'.join(L) + '\n'
     out = os.path.join(gendir, 'DecoyCli.v')
     old = open(out).read() if os.path.exists(out) else None
